@@ -163,6 +163,8 @@ CONTROLS = [
         '    let (s, b) = many0(is_not("\\""))(s)?;\n    let (s, c) = tag("\\"")(s)?;\n\n    let mut ret = None;\n    for x in b {\n        ret = if let Some(ret) = ret {\n            Some(concat(ret, x).unwrap())\n        } else {\n            Some(x)\n        };\n    }\n\n    let a = if let Some(b) = ret {\n        let a = concat(a, b).unwrap();\n        concat(a, c).unwrap()\n    } else {\n        concat(a, c).unwrap()\n    };\n    Ok((s, a))', 1)]),
     ('g17-lone-backslash-alternative', 'G17', 'syn', 'string_literal_impl:escape-not-paired', [(PARSER + 'expressions/strings.rs',
         '        map(pair(tag("\\\\"), take(1usize)), |(x, y)| {\n            concat(x, y).unwrap()\n        }),', '        tag("\\\\\\""),\n        tag("\\\\"),', 1)]),
+    ('g18-escaped-identifier-past-cr', 'G18', 'syn', 'escaped-identifier:escaped_identifier_impl:runs-past-white-space:0d', [(PARSER + 'general/identifiers.rs',
+        'is_not(" \\t\\r\\n")', 'is_not(" \\t\\n")', 0)]),
     ('g18-run-swallows-quotes', 'G18', 'syn', 'sibling-start-swallowed', [(CD, 'is_not("`/\\"\\\\"),', 'is_not("`/\\\\"),', 1)]),
     ('g18-run-stops-at-dollar', 'G18', 'syn', 'stop-without-sibling', [(CD, 'is_not("`/\\"\\\\"),', 'is_not("`/\\"\\\\$"),', 1)]),
     ('g18-slash-before-star-taken', 'G18', 'syn', 'special-too-wide', [(CD, 'peek(not(alt((tag("/"), tag("*")))))', 'peek(not(alt((tag("/"), tag("/")))))', 1)]),
